@@ -538,7 +538,19 @@ pub fn run(a: &Args, rep: &mut Report) {
     }
     // the verifier called from 8 threads at once, each on its own program: same verdicts as alone
     if !cfg!(miri) {
-        let progs = std::mem::take(&mut *PAR_SAMPLE.lock().unwrap());
+        let mut progs = std::mem::take(&mut *PAR_SAMPLE.lock().unwrap());
+        // long programs whose only defect is at the very end (and their well-formed twins): a
+        // verdict takes long enough for several threads to be inside the verifier on the same bytes
+        for k in 0..12usize {
+            let n = 20_000 + 3_000 * k;
+            let mut p: Vec<u8> = Vec::with_capacity(8 * (n + 1));
+            for j in 0..n {
+                p.extend_from_slice(&Insn::new(MOV64_IMM, (j % 10) as u8, 0, 0, (j as i32) ^ (k as i32)).bytes());
+            }
+            p.extend_from_slice(&(if k % 2 == 0 { Insn::new(0xff, 0, 0, 0, 0) } else { Insn::new(EXIT, 0, 0, 0, 0) }).bytes());
+            let at = (k * 601) % (progs.len() + 1);
+            progs.insert(at, p);
+        }
         let (execs, bad) = crate::mon_par::par_same(&progs, |p| real_verify(Kind::Raw, p, p.len() % 16 == 0).0, if q { 2 } else { 6 });
         crate::mon_par::report_par(rep, "C06", "verify", execs, bad, |i| json!({"prog": hex(&progs[i])}));
     }
